@@ -27,6 +27,7 @@ Definition pending_snapshot (pc : cpc) : option (scope * list pid) :=
 Definition snap_inv_of (nd : node) (pc : cpc) (log : list entry) : Prop :=
   match pc with
   | CAcq r => exists seg, since_req log r seg
+  | CAdd sc _ => exists seg, since_req log (RAct sc false) seg
   | _ => match pending_snapshot pc with Some (sc, rest) => snap_ok nd log sc rest | None => True end
   end.
 Definition snap_inv (nd : node) (s : state) (c : conn) : Prop := snap_inv_of nd (c_pc (cth s c)) (logs s c).
@@ -62,6 +63,15 @@ Proof.
   intros nd pc log p v. unfold snap_inv_of. destruct pc; simpl; auto; try apply snap_ok_app_upd.
   - intros [seg H]. eexists; apply since_req_app_upd; eauto.
   - destruct r; auto. apply snap_ok_app_upd.
+  - intros [seg H]. eexists; apply since_req_app_upd; eauto.
+Qed.
+
+Lemma snap_inv_after : forall nd s c k c0,
+  (c0 <> c -> snap_inv nd s c0) -> snap_inv nd (after_reset s c k) c0.
+Proof.
+  intros nd s c k c0 O. unfold snap_inv. rewrite logs_after. destruct (Nat.eq_dec c0 c) as [-> | N].
+  - destruct (cth_after_self s c k) as [_ E]. rewrite E. destruct k; simpl; auto.
+  - rewrite cth_after_other by auto. apply O; auto.
 Qed.
 
 Lemma snap_inv_enter : forall nd s c sc g c0,
@@ -98,6 +108,12 @@ Proof.
   - (* snapshot message *) pose proof (I c) as Ic. unfold snap_inv in Ic. rewrite H0 in Ic.
     unfold snap_inv; unf. split_c c0 c; [| apply (I c0)]. apply snap_ok_send. exact Ic.
   - (* reply *) unfold snap_inv; unf. split_c c0 c; auto. apply (I c0).
+  - (* subscribe, second half *) pose proof (I c) as Ic. unfold snap_inv in Ic. rewrite H0 in Ic.
+    apply snap_inv_enter.
+    + intros N. unfold snap_inv; unf. apply (I c0).
+    + unf. destruct Ic as [seg S]. exists seg. split; auto.
+  - (* last discard of reset_connection *) apply snap_inv_after. intros N. unfold snap_inv; unf. apply (I c0).
+  - (* discard *) unfold snap_inv; unf. split_c c0 c; auto. apply (I c0).
   - (* driver thread start *) unfold snap_inv; unf; apply (I c).
   - unfold snap_inv; unf; apply (I c).
   - unfold snap_inv; unf; apply (I c).
